@@ -97,7 +97,7 @@ namespace smt
             case False:
                 return FALSE_lit; // the variables cannot assume the same value..
             case Undefined:
-                return sign(left) == sign(right) ? right : !right;
+                return right; // 'left' is true, hence the equality holds iff 'right' is true..
             }
             [[fallthrough]];
         case False:
@@ -108,16 +108,16 @@ namespace smt
             case False:
                 return TRUE_lit; // the variables assume the same value..
             case Undefined:
-                return sign(left) == sign(right) ? !right : right;
+                return !right; // 'left' is false, hence the equality holds iff 'right' is false..
             }
             [[fallthrough]];
         case Undefined:
             switch (value(right))
             {
             case True:
-                return sign(left) == sign(right) ? left : !left;
+                return left; // 'right' is true, hence the equality holds iff 'left' is true..
             case False:
-                return sign(left) == sign(right) ? !left : left;
+                return !left; // 'right' is false, hence the equality holds iff 'left' is false..
             case Undefined:
                 break;
             }
